@@ -755,7 +755,7 @@ def gen_per(ctx, rng):
         if rng.random() < 0.4:
             # `def g(y, x=0.5)` with x the PERIODIC variable: the end point is supplied, the default never used
             make_defaulted(rng, d, pv)
-        d["wrap"] = rng.random() < 0.25
+        d["wrap"] = rng.random() < 0.4           # the SAME UserFunction object serves the left and the right side
     n = rng.choice([1, 2, 3, 4]) if bspace else 1
     static = bool(bspace) and rng.random() < 0.5
     calls = rng.choice([1, 2])
@@ -767,6 +767,14 @@ def gen_per(ctx, rng):
     varying = [a_[0] for a_ in avail if a_[0] not in [p[0] for p in param]]
     if not set(resid["params"]) & set(varying):
         resid["params"].insert(0, rng.choice(varying))
+    for d in data:
+        # the residual should look at both sides of the data it is given (that is where sides can be mixed up)
+        if rng.random() < 0.7:
+            for side in ("_left", "_right"):
+                if d["name"] + side not in resid["params"]:
+                    resid["params"].insert(0, d["name"] + side)
+                    resid["body"][0] = ["+", resid["body"][0], ["*", ["c", js(cc.dy(rng, 1, 4, 2))], ["v", d["name"] + side, 0]]]
+    resid["kwonly"] = 0
     custom = rng.random() < 0.3
     err, red = (rng.choice(["sq", "id", "abs"]), rng.choice(["mean", "sum", "max"])) if custom else ("sq", "mean")
     return dict(kind="per", pv=pv, a=js(a), b=js(b), bspace=bspace, net=net, param=param, data=data, resid=resid,
@@ -990,22 +998,41 @@ def gen_don(ctx, rng):
     static = rng.random() < 0.4
     psets = [gen_rows(rng, F_, dim_of(pspace)) for _ in range(calls + 1)]
     xsets = [gen_rows(rng, n, dim_of(xspace)) for _ in range(calls + 3)]
-    data = [gen_fn(rng, dn, xspace, rng.randint(1, 2)) for dn in rng.sample(["g"], rng.choice([0, 1]))]
-    param = []
-    if rng.random() < 0.3:
-        param = [["D", [js(cc.dy(rng))]]]
-    avail = list(xspace) + out_space + [[p[0], len(p[1])] for p in param] + [[d["name"], len(d["body"])] for d in data]
-    use_f = rng.random() < 0.5
-    if use_f:
-        avail += fout
-    resid = gen_fn(rng, "resid", avail, rng.randint(1, 2), deg=2)
-    if use_f and "f" not in resid["params"]:
-        resid["params"].insert(0, "f")
-    if out_space[0][0] not in resid["params"]:
-        resid["params"].insert(0, out_space[0][0])
+    def sub(first):
+        """one PIDeepONetCondition on the shared DeepONet / function set: own input sampler, residual, data"""
+        n_ = n if first else rng.choice([1, 2, 3, 5])
+        data = [gen_fn(rng, dn, xspace, rng.randint(1, 2)) for dn in rng.sample(["g"], rng.choice([0, 1]))]
+        for d in data:
+            d["wrap"] = rng.random() < 0.3
+        param = []
+        if rng.random() < 0.3:
+            param = [["D", [js(cc.dy(rng))]]]
+        avail = list(xspace) + out_space + [[p[0], len(p[1])] for p in param] + [[d["name"], len(d["body"])] for d in data]
+        use_f = rng.random() < (0.5 if first else 0.8)
+        if use_f:
+            avail = avail + fout
+        resid = gen_fn(rng, "resid", avail, rng.randint(1, 2), deg=2)
+        if use_f and "f" not in resid["params"]:
+            resid["params"].insert(0, "f")
+            resid["body"][0] = ["+", resid["body"][0], ["v", "f", 0]]
+        if out_space[0][0] not in resid["params"]:
+            resid["params"].insert(0, out_space[0][0])
+        return dict(static=(static if first else rng.random() < 0.6), n=n_, data=data, param=param, resid=resid, use_f=use_f,
+                    xsets=[gen_rows(rng, n_, dim_of(xspace)) for _ in range(calls + 3)])
+    # 1-3 conditions share ONE DeepONet and ONE function set (equation + boundary/initial conditions); every
+    # training iteration evaluates all of them, in an order that changes from iteration to iteration
+    nconds = rng.choice([1, 1, 2, 2, 3])
+    if nconds > 1:
+        calls = rng.choice([2, 3])
+        psets = [gen_rows(rng, F_, dim_of(pspace)) for _ in range(calls + 1)]
+    subs = [sub(True)] + [sub(False) for _ in range(nconds - 1)]
+    steps = []
+    for k in range(calls):
+        order = list(range(nconds))
+        rng.shuffle(order)
+        steps += [[k, j] for j in order]
     return dict(kind="don", sv=sv, xspace=xspace, trunk_in=trunk_in, pspace=pspace, fout=fout, fn=fn, out=out_space,
-                nk=nk, zs=zs, W=W, feats=feats, F=F_, n=n, calls=calls, static=static, psets=psets, xsets=xsets,
-                data=data, param=param, resid=resid, use_f=use_f)
+                nk=nk, zs=zs, W=W, feats=feats, F=F_, calls=calls, psets=psets, subs=subs, steps=steps)
 
 
 def don_net(case):
@@ -1031,54 +1058,62 @@ def don_net(case):
     return {"in": case["pspace"] + case["trunk_in"], "out": case["out"], "body": [pe_to_json(b) for b in body]}
 
 
-def run_don(case):
+def run_don(case, only=None):
+    """only = j: construct and evaluate condition j alone (fresh objects, the same draws)"""
     C = classes()
     tp, torch = C["tp"], C["torch"]
     sv = case["sv"]
     fspace = tp.spaces.FunctionSpace(tp.domains.Interval(mk_space([[sv, 1]]), 0.0, 1.0), mk_space(case["fout"]))
-    fobs = []
-    custom_fn = build_fn(C, case["fn"], fobs)
+    custom_fn = build_fn(C, case["fn"], [])
     psampler = C["ListSampler"](case["pspace"], [prow(s) for s in case["psets"]])
     rec_p = Recorder(psampler)
-    fset = tp.domains.CustomFunctionSet(fspace, psampler, custom_fn)
+    fset = tp.domains.CustomFunctionSet(fspace, psampler, custom_fn)          # shared by all conditions
     disc = C["ListSampler"]([[sv, 1]], [prow(case["zs"])]).make_static()
     trunk = C["PolyTrunk"](case["trunk_in"], [pe_from_json(b) for b in case["feats"]])
     branch = C["LinBranch"](fspace, disc, [[F(v) for v in r] for r in case["W"]])
-    U = mk_space(case["out"])
-    net = tp.models.DeepONet(trunk, branch, U, output_neurons=dim_of(case["out"]) * case["nk"])
-    inner = C["ListSampler"](case["xspace"], [prow(s) for s in case["xsets"]])
-    sampler = inner.make_static() if case["static"] else inner
-    rec = Recorder(sampler)
-    obs = Obs()
-    user_dict, data_obs = {}, {}
-    for d in case["data"]:
-        data_obs[d["name"]] = []
-        user_dict[d["name"]] = build_fn(C, d, data_obs[d["name"]])
-    resid = build_fn(C, case["resid"], obs.resid_args, record_out=obs.resid_out)
-    kw = dict(data_functions=user_dict)
-    if case["param"]:
-        pn, pv = case["param"][0]
-        kw["parameter"] = tp.models.Parameter([float(F(v)) for v in pv], mk_space([[pn, len(pv)]]))
-    out = dict(losses=[], points=[], ppoints=[], errors=[], shapes=[])
-    try:
-        cond = tp.conditions.PIDeepONetCondition(net, fset, sampler, resid, **kw)
-    except Exception as e:  # noqa
-        out["errors"].append(("construct", classify_exc(e)))
-        return out
-    out["construct_points"] = list(rec.calls)
-    for k in range(case["calls"]):
-        b, bp, n_obs = len(rec.calls), len(rec_p.calls), len(obs.resid_args)
+    net = tp.models.DeepONet(trunk, branch, mk_space(case["out"]), output_neurons=dim_of(case["out"]) * case["nk"])  # shared
+    out = dict(errors=[], steps=[], construct_points=[], param_draws=0)
+    conds = []
+    for j_, sub in enumerate(case["subs"]):
+        if only is not None and j_ != only:
+            conds.append(None)
+            out["construct_points"].append([])
+            continue
+        inner = C["ListSampler"](case["xspace"], [prow(s) for s in sub["xsets"]])
+        sampler = inner.make_static() if sub["static"] else inner
+        rec = Recorder(sampler)
+        obs = Obs()
+        user_dict = {d["name"]: build_fn(C, d, []) for d in sub["data"]}
+        resid = build_fn(C, sub["resid"], obs.resid_args, record_out=obs.resid_out)
+        kw = dict(data_functions=user_dict)
+        if sub["param"]:
+            pn, pv = sub["param"][0]
+            kw["parameter"] = tp.models.Parameter([float(F(v)) for v in pv], mk_space([[pn, len(pv)]]))
         try:
-            out["losses"].append(float(cond.forward(iteration=k)))
+            cond = tp.conditions.PIDeepONetCondition(net, fset, sampler, resid, **kw)
         except Exception as e:  # noqa
-            out["losses"].append(None)
-            out["errors"].append((k, classify_exc(e)))
-        out["points"].append(rec.calls[b:])
-        out["ppoints"].append(rec_p.calls[bp:])
-        if len(obs.resid_args) == n_obs:
-            obs.resid_args.append(None)
-            obs.resid_out.append(None)
-    out["resid_args"], out["resid_out"] = obs.resid_args, obs.resid_out
+            out["errors"].append(("construct", classify_exc(e)))
+            return out
+        out["construct_points"].append(list(rec.calls))
+        conds.append((cond, rec, obs))
+    for k, j in case["steps"]:
+        if conds[j] is None:
+            continue
+        cond, rec, obs = conds[j]
+        b, n_obs = len(rec.calls), len(obs.resid_args)
+        st = dict(k=k, j=j, loss=None, error=None, args=None, out=None, pp=None)
+        try:
+            st["loss"] = float(cond.forward(iteration=k))
+        except Exception as e:  # noqa
+            st["error"] = classify_exc(e)
+            out["errors"].append((f"iteration {k} condition {j}", st["error"]))
+        st["points"] = rec.calls[b:]
+        if fset.param_batch is not None:
+            st["pp"] = cc.points_record(fset.param_batch)          # the input functions currently in the branch net
+        if len(obs.resid_args) > n_obs:
+            st["args"], st["out"] = obs.resid_args[-1], obs.resid_out[-1]
+        out["steps"].append(st)
+    out["param_draws"] = len(rec_p.calls)
     return out
 
 
@@ -1086,20 +1121,19 @@ def lines_don(case, res):
     if res["errors"] and res["errors"][0][0] == "construct":
         return []
     net = don_net(case)
-    pre = pre_tok(case["static"], None, res["construct_points"])
-    fso = "0"
-    if case["use_f"]:
-        fso = "1 " + tok_space(case["fout"]) + " " + fn_tok(case["fn"])
     lines = []
-    for k in range(case["calls"]):
-        if len(res["points"][k]) != 1 or len(res["ppoints"][k]) != 1:
+    for st in res["steps"]:
+        sub = case["subs"][st["j"]]
+        if len(st["points"]) != 1 or st["pp"] is None:
             lines.append(None)
             continue
-        p, pp = res["points"][k][0], res["ppoints"][k][0]
+        pre = pre_tok(sub["static"], None, res["construct_points"][st["j"]])
+        fso = "1 " + tok_space(case["fout"]) + " " + fn_tok(case["fn"]) if sub["use_f"] else "0"
+        p, pp = st["points"][0], st["pp"]
         lines.append(" ".join(["don", tok_space(pp["space"]), tok_space(p["space"]), tok_table(pp["rows"]), tok_table(p["rows"]),
-                               net_tok(net), fso, resid_ufun_tok(case),
-                               lst(case["data"], lambda d: d["name"] + " " + fn_tok(d)), pre,
-                               tok_named([(n, [F(v) for v in vs]) for n, vs in case["param"]]), "0"]))
+                               net_tok(net), fso, resid_ufun_tok(sub),
+                               lst(sub["data"], lambda d: d["name"] + " " + fn_tok(d)), pre,
+                               tok_named([(n, [F(v) for v in vs]) for n, vs in sub["param"]]), "0"]))
     return lines
 
 
@@ -1112,32 +1146,40 @@ def tile(rows, total):
 
 
 def judge_don(rep, case, res, replies):
-    rep.count("don:" + ("static" if case["static"] else "non-static"))
-    rep.count("don:uses-function-set-output" if case["use_f"] else "don:no-function-output")
+    rep.count(f"don:conditions-sharing-net-and-function-set={len(case['subs'])}")
+    rep.count(f"don:iterations={case['calls']}")
     rep.count(f"don:functions={case['F']}")
-    count_shapes(rep, [case["resid"], case["fn"]] + case["data"])
+    count_shapes(rep, [case["fn"]] + [f for sub in case["subs"] for f in [sub["resid"]] + sub["data"]])
     if res["errors"]:
         for where, what in res["errors"]:
             rep.fail(f"PIDeepONetCondition raised at {where}: {what}", case)
         return
+    if res["param_draws"] != case["calls"]:
+        rep.fail(f"the shared function set drew new functions {res['param_draws']} times in {case['calls']} iterations", case)
     net = don_net(case)
     body = [pe_from_json(b) for b in net["body"]]
-    for k in range(case["calls"]):
-        if len(res["points"][k]) != 1 or len(res["ppoints"][k]) != 1:
-            rep.fail(f"PIDeepONetCondition: forward call {k} drew {len(res['points'][k])} location sets and {len(res['ppoints'][k])} function batches", case)
+    first_of_iter = {}
+    for si, st in enumerate(res["steps"]):
+        sub = case["subs"][st["j"]]
+        k = st["k"]
+        first_of_iter.setdefault(k, st["j"])
+        tag = f"iteration {k}, condition {st['j']}" + ("" if first_of_iter[k] == st["j"] else " (not the first of its iteration)")
+        rep.count("don:" + ("static" if sub["static"] else "non-static") + (":uses-function-set-output" if sub["use_f"] else ""))
+        if len(st["points"]) != 1 or st["pp"] is None:
+            rep.fail(f"PIDeepONetCondition ({tag}) drew {len(st['points'])} location sets", case)
             continue
-        p, pp = res["points"][k][0], res["ppoints"][k][0]
+        p, pp = st["points"][0], st["pp"]
         nF, n = len(pp["rows"]), len(p["rows"])
-        args, out, loss = res["resid_args"][k], res["resid_out"][k], res["losses"][k]
+        args, out, loss = st["args"], st["out"], st["loss"]
         if args is None:
-            rep.fail(f"PIDeepONetCondition: forward call {k} never called the residual", case)
+            rep.fail(f"PIDeepONetCondition ({tag}) never called the residual", case)
             continue
         out = tile(out, nF * n)
         doc = documented_reduction("sq", "mean", out)        # mean over functions x locations of sum over components
         if not close(loss, float(doc), TOL["rel"], TOL["abs"]):
-            rep.fail(f"PIDeepONetCondition: forward call {k} returned {loss!r}; the documented mean over {nF} functions x {n} "
+            rep.fail(f"PIDeepONetCondition ({tag}) returned {loss!r}; the documented mean over {nF} functions x {n} "
                      f"locations of the squared residual summed over {len(out[0])} components is {float(doc)!r}", case,
-                     detail=dict(call=k, ratio=(loss / float(doc)) if doc else None))
+                     detail=dict(step=si, ratio=(loss / float(doc)) if doc else None))
         exp = {}
         envs = []
         for prow_ in pp["rows"]:
@@ -1151,33 +1193,34 @@ def judge_don(rep, case, res, replies):
         for nm, d in case["out"]:
             exp[nm] = [[pe_frac(b, e) for b in body[kk:kk + d]] for e in envs]
             kk += d
-        for d in case["data"]:
+        for d in sub["data"]:
             exp[d["name"]] = [eval_fn_spec(d, e) for e in envs]
-        if case["use_f"]:
+        if sub["use_f"]:
             exp["f"] = [eval_fn_spec(case["fn"], e) for e in envs]
-        for nm, vs in case["param"]:
+        for nm, vs in sub["param"]:
             exp[nm] = [[F(v) for v in vs] for _ in envs]
-        for nm, vs in case["resid"]["defaults"]:
+        for nm, vs in sub["resid"]["defaults"]:
             exp.setdefault(nm, [[F(v) for v in vs] for _ in envs])
         for name, got in args.items():
             want = exp.get(name)
             g = tile(expand(got, nF * n), nF * n)
             if want is None or not rows_close(g, want, 1e-12, 1e-12):
-                rep.fail(f"PIDeepONetCondition: forward call {k}: argument '{name}' seen by the residual is not its value for "
-                         f"(function, location) in row-major order", case,
-                         detail=dict(call=k, name=name, got=[[str(v) for v in r] for r in g][:4],
+                what = ("the input functions currently held by the branch net, evaluated at the sampled locations" if name == "f"
+                        else "its value for (function, location) in row-major order")
+                rep.fail(f"PIDeepONetCondition ({tag}): argument '{name}' seen by the residual is not {what}", case,
+                         detail=dict(step=si, name=name, got=[[str(v) for v in r] for r in g][:4],
                                      want=None if want is None else [[str(v) for v in r] for r in want][:4]))
-        m = parse_reply(replies[k]) if replies[k] is not None else dict(error="no-line")
+        m = parse_reply(replies[si]) if si < len(replies) and replies[si] is not None else dict(error="no-line")
         if "error" in m:
-            rep.disagree("don: model rejects, implementation returns a loss", dict(case=case, call=k), loss, m["error"])
+            rep.disagree("don: model rejects, implementation returns a loss", dict(case=case, step=si), loss, m["error"])
             continue
         if not close(loss, float(m["loss"]), TOL["rel"], TOL["abs"]):
-            rep.disagree("don loss: drivers/C04.lean `don` vs PIDeepONetCondition.forward()", dict(case=case, call=k), loss, str(m["loss"]))
+            rep.disagree("don loss: drivers/C04.lean `don` vs PIDeepONetCondition.forward()", dict(case=case, step=si), loss, str(m["loss"]))
         for i in range(nF * n):
-            for j, name in enumerate(case["resid"]["params"]):
+            for jj, name in enumerate(sub["resid"]["params"]):
                 got = tile(expand(args[name], nF * n), nF * n)[i]
-                if not rows_close([got], [m["bound"][i][j]], 1e-12, 1e-12):
-                    rep.disagree(f"don argument binding '{name}' row {i}", dict(case=case, call=k), [str(v) for v in got], [str(v) for v in m["bound"][i][j]])
+                if not rows_close([got], [m["bound"][i][jj]], 1e-12, 1e-12):
+                    rep.disagree(f"don argument binding '{name}' row {i}", dict(case=case, step=si), [str(v) for v in got], [str(v) for v in m["bound"][i][jj]])
                     return
 
 
@@ -1214,7 +1257,7 @@ def nontrivial(case):
     if case["kind"] == "per":
         return case["n"] >= 2 or bool(case["data"])
     if case["kind"] == "don":
-        return case["F"] >= 2 and case["n"] >= 2
+        return case["F"] >= 2 and any(sub["n"] >= 2 for sub in case["subs"])
     return True
 
 
@@ -1222,6 +1265,8 @@ def key_of(case):
     c = dict(case)
     for k in ("sets", "xs", "ys", "psets", "xsets"):
         c.pop(k, None)
+    if "subs" in c:
+        c["subs"] = [{k: v for k, v in sub.items() if k != "xsets"} for sub in c["subs"]]
     return c
 
 
